@@ -38,8 +38,18 @@ PROPS = {
         'not_decided': 'composition of the proved fragments over whole programs; conditional-branch control flow is specified as a taken/not-taken decision only',
         'explanation': 'Hoare-style contracts over an A64 ISA specification on every instruction emitter of axcut2aarch64',
     },
+    'C08': {
+        'units': ['rv64_code'],
+        'aux': ['native_emitters_rv', 'native_moves'],
+        'level': 'proof',
+        'claim': 'Every Instructions method of the RISC-V backend is proved to push instructions whose effect on an RV64 model is exactly the abstract operation (one instruction each; add_and_jump uses the scratch register X1), the variable-to-register map is 2*position + number + 4 with the capacity assertion unreachable below 14 variables, and print_i64 is unreachable for print-free programs. All three backends are proved against the same effect vocabulary (wadd/wsub/wmul/wdiv/wrem, slt/sle), which is the sense in which they agree. Whole-program simulation is not decided.',
+        'note': 'Trusted: the hand-written RV64 specification (LW/SW read as 64-bit accesses as the property states), extraction rules, Verus/Z3.',
+        'technique': 'contract-based deductive verification (Verus) of the extracted real emitters against an ISA specification',
+        'not_decided': 'composition over whole programs; agreement with the other backends only through the shared effect specifications',
+        'explanation': 'Hoare-style contracts over an RV64 ISA specification on every instruction emitter of axcut2rv64',
+    },
     'C11': {
-        'units': ['x86_moves'],
+        'units': ['x86_moves', 'a64_code', 'rv64_code'],
         'aux': ['native_moves'],
         'level': 'other',
         'claim': 'Backend pieces of the parallel-moves algorithm (mov, store_temporary, restore_temporary) are proved by Verus for all placements; the generic forest algorithm, the reference-count dispatch and their composition through the real Substitute::code_statement are checked exhaustively for every map of m<=5 new to n<=5 old variables, every kind assignment and every window offset across each register/spill boundary on all three backends (m,n<=4 in the quick tier), by executing the emitted code on a machine model with distinct tokens. The exhaustive part is a bounded check, not a proof.',
